@@ -93,6 +93,17 @@ class Entry:
         return SCM()
 
 
+class AwObj:
+    """awaitable that is neither a coroutine nor a Future"""
+    def __init__(self, fn):
+        self.fn = fn
+
+    def __await__(self):
+        if False:
+            yield
+        return self.fn()
+
+
 def register(stack, ent, log, std=False):
     """register ent on an asyncstdlib ExitStack (std=False) or a contextlib.AsyncExitStack (std=True)"""
     k = ent.kind
@@ -105,6 +116,12 @@ def register(stack, ent, log, std=False):
             stack.enter_context(cm)
             return None
         return stack.enter_context(cm)
+    if k == "apush" and ent.id % 3 == 0:
+        # a plain function handing back an awaitable object that is not a coroutine: still an asynchronous exit
+        def ex(et, ev, tb):
+            return AwObj(lambda: ent.act(log, ev))
+        (stack.push_async_exit if std else stack.push)(ex)
+        return None
     if k == "apush":
         async def ex(et, ev, tb):
             return ent.act(log, ev)
@@ -118,6 +135,12 @@ def register(stack, ent, log, std=False):
     if k == "cmpush":
         cm = ent.as_acm(log)
         (stack.push_async_exit if std else stack.push)(cm)
+        return None
+    if k == "acb" and ent.id % 3 == 0:
+        def cb(x, kw=None):
+            assert x == ent.id and kw == "kw"
+            return AwObj(lambda: ent.act(log, None_marker(log)))
+        (stack.push_async_callback if std else stack.callback)(cb, ent.id, kw="kw")
         return None
     if k == "acb":
         async def cb(x, kw=None):
